@@ -3,6 +3,7 @@ from engine import query as Q
 from engine.terms import show, subterms
 from engine.guards import Atom, Walker, field_path, chain, Inliner
 from .c07 import loop_head
+from . import common
 
 NET = "zksync_consensus_network"
 MUX = NET + "::mux::Mux"
@@ -197,10 +198,23 @@ def rule_stream_ids(ctx):
     f = ctx.body(MUX + "::spawn_streams")
     T = ctx.T(f)
     ok, how = stream_count_is_min(ctx, f)
+    if not ok and "not found" in how:
+        # the creation loop may live in a closure of spawn_streams (iterator pipeline)
+        for g in common.family(ctx, f, ("closure",)):
+            ok2, how2 = stream_count_is_min(ctx, g)
+            if ok2 or "not found" not in how2:
+                ok, how = ok2, how2
+                break
     ctx.ob(R, "stream count per capability", ok, how if ok else "per-capability stream count is not the minimum of both sides' limits: %s" % how, f.loc())
     ids = [T.args_of(c)[0] for c in T.calls() if c["q"] == HDR + "::StreamId::new"]
-    ok = bool(ids) and all(any(x[0] == "call" and x[1].endswith("Vec::len") for x in subterms(i)) for i in ids)
-    ctx.ob(R, "consecutive ids", ok, "StreamId::new(streams.len() as u16): ids are consecutive in creation order" if ok else "stream ids: %s" % [show(i) for i in ids], f.loc())
+    def running_count(i):
+        # streams.len() before the push, or the index handed out by enumerate() over the creation sequence
+        if any(x[0] == "call" and x[1].endswith("Vec::len") for x in subterms(i)):
+            return True
+        return any(x[0] == "field" and x[2] == "0" and x[1][0] == "field" and x[1][2] == "0" and x[1][1][0] == "downcast" and x[1][1][2] == "Some"
+                   and any(y[0] == "call" and y[1] == "std::iter::Iterator::enumerate" for y in subterms(x[1][1][1])) for x in subterms(i))
+    ok = bool(ids) and all(running_count(i) for i in ids)
+    ctx.ob(R, "consecutive ids", ok, "StreamId::new(<running count> as u16): ids are consecutive in creation order" if ok else "stream ids: %s" % [show(i) for i in ids], f.loc())
     # unknown stream id -> error, never an index
     p = ctx.body(MUX + "::process_inbound_frames")
     Tp = ctx.T(p)
@@ -459,9 +473,22 @@ def rule_casts(ctx):
                     if a in widths and bt in widths and widths[bt] < widths[a]:
                         k = (root_fn(f).qname, a, bt)
                         found.setdefault(k, []).append(f.loc(s.get("ln")))
+    # reviewed casts that are no longer where they were (function split / merged / renamed): their budget can be taken
+    # over by a cast of the same types elsewhere in these files - the number of narrowing casts of a kind never grows
+    spare = {}
+    for (fnq, a, bt), (cnt, reason) in allowed.items():
+        left = cnt - len(found.get((fnq, a, bt), []))
+        if left > 0:
+            spare[(a, bt)] = spare.get((a, bt), 0) + left
     for k, locs in sorted(found.items()):
         e = allowed.get(k)
         ok = e is not None and len(locs) <= e[0]
+        if not ok:
+            extra = len(locs) - (e[0] if e is not None else 0)
+            if spare.get((k[1], k[2]), 0) >= extra:
+                spare[(k[1], k[2])] -= extra
+                ctx.ob(R, "cast %s %s->%s (moved)" % (k[0].split("::", 2)[-1], k[1], k[2]), True, "re-matched as moved: a reviewed %s as %s cast left its former function and the total did not grow" % (k[1], k[2]), locs[0])
+                continue
         ctx.ob(R, "cast %s %s->%s" % (k[0].split("::", 2)[-1], k[1], k[2]), ok, "reviewed: %s" % e[1] if ok else
                "narrowing cast %s as %s in %s (%d site(s)) has no reviewed bound" % (k[1], k[2], k[0], len(locs)), locs[0])
     ctx.floor(R, "narrowing casts inventoried", sum(len(v) for v in found.values()), 4)
